@@ -2,6 +2,7 @@
 package c17
 
 import (
+	"encoding/hex"
 	"fmt"
 	"os"
 	"path/filepath"
@@ -11,6 +12,7 @@ import (
 
 	"github.com/tsawler/tabula"
 	"github.com/tsawler/tabula/model"
+	"github.com/tsawler/tabula/rag"
 	"github.com/tsawler/tabula/xlsx"
 
 	"verifharness/hx"
@@ -270,6 +272,94 @@ func genSlight(r *hx.Rng) lcell {
 	return withFormula(r, lc)
 }
 
+// Characters a Markdown pipe table gives a meaning to, alone and in pairs: the
+// cell separator, the escape character, and the line break that ends a table
+// row. A displayed value may hold them anywhere - also as its first or its last
+// character, or as all it consists of.
+var mdMarks = []string{"|", "|", "\\", "||", "\\|", "|\\", "| |"}
+var mdBreaks = []string{"\n", "\n", "|\n", "\n|", "\n\n", "\\\n"}
+
+// mdEdge puts one mark into the value: in front, at the end, between two of its
+// characters, or instead of it. where says which.
+func mdEdge(r *hx.Rng, v string, marks []string) (out, where string) {
+	m := hx.Pick(r, marks)
+	switch r.Intn(6) {
+	case 0:
+		return m + v, "start"
+	case 1, 2:
+		return v + m, "end"
+	case 3:
+		cut := 0
+		if len(v) > 0 {
+			cut = r.Intn(len(v) + 1)
+			for cut < len(v) && (v[cut]&0xC0) == 0x80 {
+				cut++
+			}
+		}
+		return v[:cut] + m + v[cut:], "inside"
+	case 4:
+		return m + v + hx.Pick(r, marks), "both-ends"
+	default:
+		return m, "whole"
+	}
+}
+
+// markSheet rewrites about half of the string-valued cells of the sheet with
+// mdEdge. breaks: line breaks are among the marks.
+func markSheet(r *hx.Rng, sh *lsheet, breaks bool) {
+	marks := mdMarks
+	if breaks {
+		marks = append(append([]string{}, mdMarks...), mdBreaks...)
+		marks = append(marks, mdBreaks...)
+	}
+	for _, pos := range sortedPos(sh.cells) {
+		lc := sh.cells[pos]
+		isString := false
+		for _, k := range stringKinds {
+			if lc.kind == k {
+				isString = true
+			}
+		}
+		if !isString || !r.Chance(1, 2) {
+			continue
+		}
+		lc.value, _ = mdEdge(r, lc.value, marks)
+		sh.cells[pos] = lc
+	}
+}
+
+// mdMarked classifies a displayed value for the input distribution: which of
+// the pipe-table characters it holds and where ("" = none).
+func mdMarked(v string) string {
+	if !strings.ContainsAny(v, "|\\\n") {
+		return ""
+	}
+	cls := func(b byte) string {
+		switch b {
+		case '|':
+			return "pipe"
+		case '\n':
+			return "break"
+		case '\\':
+			return "backslash"
+		}
+		return ""
+	}
+	if strings.Trim(v, "|\\\n ") == "" {
+		if e := cls(v[len(v)-1]); e != "" {
+			return "only-marks-last-is-" + e
+		}
+		return "only-marks-last-is-space"
+	}
+	if e := cls(v[len(v)-1]); e != "" {
+		return "ends-with-" + e
+	}
+	if e := cls(v[0]); e != "" {
+		return "starts-with-" + e
+	}
+	return "inside"
+}
+
 // valuedBox is the bounding box of the cells that display a value.
 func valuedBox(sh lsheet) (minR, minC, maxR, maxC int) {
 	minR, minC, maxR, maxC = 1<<30, 1<<30, -1, -1
@@ -374,6 +464,11 @@ func genSheet(r *hx.Rng, idx int, big bool) lsheet {
 			}
 			sh.cells[pos] = genSlight(r)
 		}
+	}
+	// in a third of the sheets string values carry the characters of the pipe-table
+	// syntax at their edges; in half of those, line breaks too
+	if r.Chance(1, 3) {
+		markSheet(r, &sh, r.Bool())
 	}
 	return sh
 }
@@ -596,6 +691,7 @@ func RunWorkbook(c *hx.Ctx, idx int, keep bool) {
 	c.Check("C17/api-text-error", aterr == nil, kase, func() string { return fmt.Sprint(aterr) })
 	apiLines := strings.Split(apiText, "\n")
 	apiOffset := 0 // line of the current sheet's first row in the text of the whole workbook
+	apiNoCtl := true // no value of this sheet or an earlier one holds a tab or a line break
 	apiMd, _, amerr := tabula.Open(path).ToMarkdown()
 	c.Check("C17/api-markdown-error", amerr == nil, kase, func() string { return fmt.Sprint(amerr) })
 	apiSections := mdSections(apiMd)
@@ -625,6 +721,9 @@ func RunWorkbook(c *hx.Ctx, idx int, keep bool) {
 				noCtl = false
 			}
 		}
+		// the text of the whole workbook: the line of a row is counted from the top,
+		// through the earlier sheets, so their values must be free of line breaks too
+		apiNoCtl = apiNoCtl && noCtl
 		// content bounds for the table outputs: the box of the cells that display a
 		// value (a white-space value is a value; a value stored under a merged
 		// region is not displayed)
@@ -648,8 +747,15 @@ func RunWorkbook(c *hx.Ctx, idx int, keep bool) {
 			c.Count("sheet:stored-values-under-merge")
 		}
 		for _, p := range sortedPos(sh.cells) {
-			if lc := sh.cells[p]; lc.formula != "" {
+			lc := sh.cells[p]
+			if lc.formula != "" {
 				c.Count("cell:formula-cached-" + lc.kind)
+			}
+			if m := mdMarked(lc.value); m != "" {
+				c.Count("cell:pipe-table-characters:" + m)
+				if p[1] < bmaxC {
+					c.Count("cell:pipe-table-characters-before-last-column")
+				}
 			}
 		}
 		var tbl *model.Table
@@ -709,7 +815,7 @@ func RunWorkbook(c *hx.Ctx, idx int, keep bool) {
 						return fmt.Sprintf("Cell(%d,%d) says Row=%d Col=%d", rr, cc, cell.Row, cell.Col)
 					})
 				}
-				if noCtl {
+				if apiNoCtl {
 					// Extractor.Text(): all sheets, a blank line between them
 					f := "<missing>"
 					if apiOffset+rr < len(apiLines) {
@@ -774,22 +880,46 @@ func RunWorkbook(c *hx.Ctx, idx int, keep bool) {
 				}
 			}
 			md, _ := rd.MarkdownWithOptions(xlsx.ExtractOptions{Sheets: []int{si}})
-			rows := mdTable(md)
-			for rr := minR; rr <= bmaxR; rr++ {
-				for cc := minC; cc <= bmaxC; cc++ {
-					want := strings.ReplaceAll(sh.cells[[2]int{rr, cc}].value, "\n", " ")
-					got := "<oob>"
-					if rr-minR < len(rows) && cc-minC < len(rows[rr-minR]) {
-						got = rows[rr-minR][cc-minC]
+			// the same table by the two other routes to it: the RAG options (default
+			// options: the body as it is) and Tables()[si].ToMarkdown()
+			ragMd, _ := rd.MarkdownWithRAGOptions(xlsx.ExtractOptions{Sheets: []int{si}}, rag.DefaultMarkdownOptions())
+			tabMd := "<no table>"
+			if si < len(tables) {
+				tabMd = tables[si].ToMarkdown()
+			}
+			for _, out := range []struct{ key, what, md string }{
+				{"C17/markdown-cell", "markdown", md},
+				{"C17/rag-markdown-cell", "MarkdownWithRAGOptions", ragMd},
+				{"C17/tables-markdown-cell", "Tables().ToMarkdown()", tabMd},
+			} {
+				rows := mdTable(out.md)
+				// the table has the rows of the content box and nothing else: a value
+				// that breaks its row in two shows here as well as in the cells after it
+				c.Check(out.key+"-row-count", len(rows) == bmaxR-minR+1, kase, func() string {
+					return fmt.Sprintf("sheet %d: %s has %d table rows, the content box has %d: %q", si, out.what, len(rows), bmaxR-minR+1, out.md)
+				})
+				for rr := minR; rr <= bmaxR; rr++ {
+					if rr-minR < len(rows) {
+						n := len(rows[rr-minR])
+						c.Check(out.key+"-column-count", n == bmaxC-minC+1, map[string]interface{}{"seed": c.Seed, "index": idx, "sheet": si, "row": rr}, func() string {
+							return fmt.Sprintf("sheet %d: %s table row %d has %d cells, the content box has %d columns: %q", si, out.what, rr-minR, n, bmaxC-minC+1, rows[rr-minR])
+						})
 					}
-					key := "C17/markdown-cell"
-					if _, isStale := sh.stale[[2]int{rr, cc}]; isStale && rr == minR {
-						// covered cell with a stored value in the table's first (header) row
-						key = "C17/markdown-header-covered-cell"
+					for cc := minC; cc <= bmaxC; cc++ {
+						want := strings.ReplaceAll(sh.cells[[2]int{rr, cc}].value, "\n", " ")
+						got := "<oob>"
+						if rr-minR < len(rows) && cc-minC < len(rows[rr-minR]) {
+							got = rows[rr-minR][cc-minC]
+						}
+						key := out.key
+						if _, isStale := sh.stale[[2]int{rr, cc}]; isStale && rr == minR && key == "C17/markdown-cell" {
+							// covered cell with a stored value in the table's first (header) row
+							key = "C17/markdown-header-covered-cell"
+						}
+						c.Check(key, got == strings.TrimSpace(want), map[string]interface{}{"seed": c.Seed, "index": idx, "sheet": si, "row": rr, "col": cc}, func() string {
+							return fmt.Sprintf("%s cell (%d,%d)=%q want %q", out.what, rr-minR, cc-minC, got, want)
+						})
 					}
-					c.Check(key, got == strings.TrimSpace(want), map[string]interface{}{"seed": c.Seed, "index": idx, "sheet": si, "row": rr, "col": cc}, func() string {
-						return fmt.Sprintf("markdown cell (%d,%d)=%q want %q", rr-minR, cc-minC, got, want)
-					})
 				}
 			}
 		}
@@ -872,7 +1002,7 @@ func mdSections(md string) map[string]string {
 func init() { hx.Register("C17", Run, Replay) }
 
 func Run(c *hx.Ctx) {
-	c.Rep.Rule = "codec: every index in a bounded range + random big indices + the indices around the bound of ColumnToIndex (column number 2^40, from both sides) + random letter strings of 7..80 letters + malformed refs; workbooks: random logical sheets (sparse cells, 8 stored kinds incl. white-space-only values, each of them either typed in or the cached result of a formula (<f> beside any t: boolean, error, number, shared/rich/inline/str string, or nothing cached), merges whose covered cells are absent or still store a value, in a third of the sheets content moved off A1 plus 1-2 slight-valued cells - white space, 0, FALSE, one character - strictly outside the box of all other valued cells; shuffled rows/cells/members) rendered by the harness's XLSX writer; api stream (workbook-level ops and call histories): the same logical workbooks, half of them with 1-3 authored faults (duplicate refs/rows, bad shared indices, odd or malformed merge ranges, rows <= 0, unparsable refs, missing parts, Markdown-special values, odd sheet names, refs naming another row), and raw sheets drawn from pools of good and bad references, types, values and merge ranges with <si> holding text, runs, both or neither and an occasional sheet too large to load; random ExtractOptions / MarkdownOptions / call sequences; budget stream: small sheets whose merged regions tile the grid exactly (valid), exceed it by one cell, repeat the whole grid, overlap, reach beyond the grid or come before/after the region that ends the merge loop, with the merge-flag and text oracles on the sheets whose regions do not overlap; cap stream: workbooks whose sheets' grids reach the limit of 8 Mi cells exactly, by one cell too many, or far beyond (incl. a sheet too large on its own and an empty sheet after the limit), c17.open only; non-trivial = at least one non-empty cell (api: a sheet with a non-empty content box); distinct by canonical workbook"
+	c.Rep.Rule = "codec: every index in a bounded range + random big indices + the indices around the bound of ColumnToIndex (column number 2^40, from both sides) + random letter strings of 7..80 letters + malformed refs; workbooks: random logical sheets (sparse cells, 8 stored kinds incl. white-space-only values, each of them either typed in or the cached result of a formula (<f> beside any t: boolean, error, number, shared/rich/inline/str string, or nothing cached), merges whose covered cells are absent or still store a value, in a third of the sheets content moved off A1 plus 1-2 slight-valued cells - white space, 0, FALSE, one character - strictly outside the box of all other valued cells, in a third of the sheets about half of the string values rewritten to carry the characters of the pipe-table syntax - pipe, backslash, and in half of those sheets line breaks - in front, at the end, inside, at both ends or as the whole value; shuffled rows/cells/members) rendered by the harness's XLSX writer; api stream (workbook-level ops and call histories): the same logical workbooks, half of them with 1-3 authored faults (duplicate refs/rows, bad shared indices, odd or malformed merge ranges, rows <= 0, unparsable refs, missing parts, Markdown-special values, odd sheet names, refs naming another row), and raw sheets drawn from pools of good and bad references, types, values and merge ranges with <si> holding text, runs, both or neither and an occasional sheet too large to load; random ExtractOptions / MarkdownOptions / call sequences; budget stream: small sheets whose merged regions tile the grid exactly (valid), exceed it by one cell, repeat the whole grid, overlap, reach beyond the grid or come before/after the region that ends the merge loop, with the merge-flag and text oracles on the sheets whose regions do not overlap; cap stream: workbooks whose sheets' grids reach the limit of 8 Mi cells exactly, by one cell too many, or far beyond (incl. a sheet too large on its own and an empty sheet after the limit), c17.open only; non-trivial = at least one non-empty cell (api: a sheet with a non-empty content box); distinct by canonical workbook"
 	codec(c)
 	n := c.N(250, 4000)
 	for i := 0; i < n; i++ {
@@ -884,6 +1014,12 @@ func Run(c *hx.Ctx) {
 
 // Replay re-runs one recorded failing case on the implementation.
 func Replay(c *hx.Ctx, kase map[string]interface{}) {
+	if h, ok := kase["esc"].(string); ok {
+		if b, err := hex.DecodeString(strings.TrimPrefix(h, "-")); err == nil {
+			escCase(c, string(b))
+			return
+		}
+	}
 	if idx, ok := kase["index"].(float64); ok {
 		if b, _ := kase["budget"].(bool); b {
 			RunBudget(c, int(idx), true)
